@@ -13,9 +13,9 @@ or @fn (inside a function).  Core Lean only.
 namespace ESV.Cache
 
 def modelledShared : List (String × String) := [
-  ("ambient-read|included_usage_map.py|IncludedUsageMap.__init__|os.path.abspath",
+  ("ambient-read|included_usage_map.py|os.path.abspath#1",
     "reads the process's environment (working directory through abspath/realpath of a relative path, …): not modelled; ./check C11 repeats every reference in other working directories and requires identical results"),
-  ("ambient-read|ssb_converting/ssb_compiler.py|ExplorerScriptSsbCompiler._resolve_imported_file|os.path.realpath",
+  ("ambient-read|ssb_converting/ssb_compiler.py|os.path.realpath#1",
     "reads the process's environment (working directory through abspath/realpath of a relative path, …): not modelled; ./check C11 repeats every reference in other working directories and requires identical results"),
   ("antlr|antlr/ExplorerScriptLexer.py|ExplorerScriptLexer.atn",
     "not modelled: shared prediction caches of the generated parsers, mutated by the antlr4 runtime; history / schedule exploration only (known finding: ParseError message)"),
@@ -37,41 +37,31 @@ def modelledShared : List (String × String) := [
     "not modelled: shared prediction caches of the generated parsers, mutated by the antlr4 runtime; history / schedule exploration only (known finding: ParseError message)"),
   ("antlr|antlr/SsbScriptParser.py|SsbScriptParser.sharedContextCache",
     "not modelled: shared prediction caches of the generated parsers, mutated by the antlr4 runtime; history / schedule exploration only (known finding: ParseError message)"),
-  ("call|ssb_converting/decompiler/graph_building/graph_minimizer.py|<module>|sys.setrecursionlimit",
+  ("call|ssb_converting/decompiler/graph_building/graph_minimizer.py|sys.setrecursionlimit#1",
     "import-time write of a constant (runs once under the import lock, before any compile()/convert() of the process can run the module's code)"),
-  ("class-object|ssb_converting/decompiler/write_handlers/label_jump.py|LabelJumpWriteHandler._label_jump_marker_handlers:dict|unshadowed",
-    "class-level dispatch table, complete when the class body has run (definition time) and only read afterwards"),
-  ("class-object|ssb_converting/decompiler/write_handlers/simple_op.py|SimpleOperationWriteHandler._ssb_operations_special_cases_handlers:dict|unshadowed,subscript@def",
-    "class-level dispatch table, complete when the class body has run (definition time) and only read afterwards"),
-  ("identity-key|ssb_converting/compiler/compiler_visitor/statement_visitor.py|StatementVisitor._push_handler|id",
+  ("identity-key|ssb_converting/compiler/compiler_visitor/statement_visitor.py|id#1",
     "object identity / hash used as a value (logging, __hash__, visited-set of handler objects): not modelled, covered by the multi-hash-seed references and the history exploration"),
-  ("identity-key|ssb_converting/decompiler/graph_building/graph_utils.py|find_first_common_next_vertex_in_edges__clear_cache|id",
+  ("identity-key|ssb_converting/decompiler/graph_building/graph_utils.py|id#2",
     "id(graph) as the key of the memo table: the recyclable `Gid` of ESV/Cache/Model.lean"),
-  ("identity-key|ssb_converting/decompiler/graph_building/graph_utils.py|find_first_common_next_vertex_in_edges|id",
-    "id(graph) as the key of the memo table: the recyclable `Gid` of ESV/Cache/Model.lean"),
-  ("identity-key|ssb_converting/decompiler/write_handlers/label_jumps/if_start.py|IfWriteHandler._build_else_if_chain|id",
+  ("identity-key|ssb_converting/decompiler/write_handlers/label_jumps/if_start.py|id#2",
     "object identity / hash used as a value (logging, __hash__, visited-set of handler objects): not modelled, covered by the multi-hash-seed references and the history exploration"),
-  ("identity-key|ssb_converting/decompiler/write_handlers/label_jumps/if_start.py|IfWriteHandler.write_content|id",
+  ("identity-key|ssb_converting/ssb_compiler.py|id#1",
     "object identity / hash used as a value (logging, __hash__, visited-set of handler objects): not modelled, covered by the multi-hash-seed references and the history exploration"),
-  ("identity-key|ssb_converting/ssb_compiler.py|ExplorerScriptSsbCompiler._compile|id",
-    "object identity / hash used as a value (logging, __hash__, visited-set of handler objects): not modelled, covered by the multi-hash-seed references and the history exploration"),
-  ("identity-key|ssb_converting/ssb_data_types.py|SsbRoutineInfo.__hash__|hash",
+  ("identity-key|ssb_converting/ssb_data_types.py|hash#1",
     "object identity / hash used as a value (logging, __hash__, visited-set of handler objects): not modelled, covered by the multi-hash-seed references and the history exploration"),
   ("module-object|ssb_converting/decompiler/graph_building/graph_utils.py|cache_lock:instance:Lock|with@fn",
     "the lock: its `with` blocks are the atomic sections of ESV/Cache/Threads.lean"),
   ("module-object|ssb_converting/decompiler/graph_building/graph_utils.py|find_first_common_next_vertex_in_edges_cache:dict|subscript@fn",
     "the memo table: `Memo` of ESV/Cache/Model.lean; written only by subscript assignment inside the locked sections (lookup, store, clear)"),
-  ("module-object|ssb_converting/ssb_special_ops.py|OPS_WITH_JUMP_TO_MEM_OFFSET:dict|method:update@def",
-    "constant table completed at module level (definition time); never written by a function"),
-  ("set-iteration|ssb_converting/decompiler/graph_building/graph_minimizer.py|SsbGraphMinimizer._build_loops__try_loop|comprehension:name:breaks_set",
+  ("set-iteration|ssb_converting/decompiler/graph_building/graph_minimizer.py|comprehension:name:breaks_set#1",
     "iteration order may depend on element hashes (ints: deterministic; strings: PYTHONHASHSEED; objects: addresses): not modelled, covered by the multi-hash-seed references of ./check C11"),
-  ("set-iteration|ssb_converting/decompiler/graph_building/graph_utils.py|_find_first_common_next_vertex_in_edges__impl|for:name:should_remove",
+  ("set-iteration|ssb_converting/decompiler/graph_building/graph_utils.py|comprehension:name:vs#1",
     "iteration order may depend on element hashes (ints: deterministic; strings: PYTHONHASHSEED; objects: addresses): not modelled, covered by the multi-hash-seed references of ./check C11"),
-  ("set-iteration|ssb_converting/decompiler/graph_building/graph_utils.py|_find_first_common_next_vertex_in_edges__impl|pop:name:intersection_result",
+  ("set-iteration|ssb_converting/decompiler/graph_building/graph_utils.py|for:name:should_remove#1",
     "iteration order may depend on element hashes (ints: deterministic; strings: PYTHONHASHSEED; objects: addresses): not modelled, covered by the multi-hash-seed references of ./check C11"),
-  ("set-iteration|ssb_converting/decompiler/graph_building/graph_utils.py|find_end_label_in_edges|comprehension:name:vs",
+  ("set-iteration|ssb_converting/decompiler/graph_building/graph_utils.py|for:set-op#1",
     "iteration order may depend on element hashes (ints: deterministic; strings: PYTHONHASHSEED; objects: addresses): not modelled, covered by the multi-hash-seed references of ./check C11"),
-  ("set-iteration|ssb_converting/decompiler/graph_building/graph_utils.py|get_out_edges_of_subgraph|for:set-op",
+  ("set-iteration|ssb_converting/decompiler/graph_building/graph_utils.py|pop:name:intersection_result#1",
     "iteration order may depend on element hashes (ints: deterministic; strings: PYTHONHASHSEED; objects: addresses): not modelled, covered by the multi-hash-seed references of ./check C11")]
 
 def modelledSharedKeys : List String := modelledShared.map (·.1)
